@@ -200,7 +200,15 @@ def run(ctx):
                where=rep["body"].loc, detail=det)
 
     # ---- C11.c handles -------------------------------------------------------------------------
-    vn = "ca::idexchange::Handle::<T>::verify_name"
+    # the name check of Handle: by name (whatever the type parameter is called) or, failing that, by what it is — the
+    # private function of Handle from a string to Result<(), InvalidHandle>
+    HANDLE = "ca::idexchange::Handle"
+    cands = C09._methods(f, HANDLE, "verify_name")
+    if not cands:
+        cands = sorted(n for n, r in f.fns.items() if r.get("impl_adt") == HANDLE and not r.get("impl_trait") and r.get("has_body")
+                       and not r.get("exported") and r.get("inputs") == ["&str"]
+                       and re.match(r"^std::result::Result<\(\), ca::idexchange::InvalidHandle>$", r.get("output") or ""))
+    vn = cands[0] if len(cands) == 1 else "ca::idexchange::Handle::<T>::verify_name"
     vb = f.body(vn)
     if vb is None:
         ctx.missing("R-CLS", "Handle::verify_name", vn)
@@ -219,7 +227,7 @@ def run(ctx):
             if c1 is None:
                 cls = None
                 break
-            if quant == "any":                    # `!bytes.any(bad)`: allowed = the bytes `bad` is false for
+            if quant in ("any", "find", "position"):      # `!bytes.any(bad)` / `bytes.find(bad).is_none()`: allowed = the bytes `bad` is false for
                 c1 = set(range(256)) - c1
             cls = c1 if cls is None else (cls & c1)
         if not preds:
@@ -235,17 +243,33 @@ def run(ctx):
         else:
             allsym = [s for p in paths for s in p.zone.syms if re.match(r"^[\w:]+::(all|any)\(", s)]
             a = allsym[0] if allsym else "all"
+            # `find(bad)` / `position(bad)` in place of all / any: the answer is an Option the function branches on
+            findc = sorted({c[0].rsplit(" is ", 1)[0] for p in paths for c in p.conds
+                            if re.match(r"^[\w:]+::(find|position)\(.* is (Some|None)$", c[0])})
             # value of the combinator when every byte is allowed
             good = 0 if re.match(r"^[\w:]+::any\(", a) else 1
             okk = lambda p: outcome_str(p.outcome) == "return Ok(())"
             errk = lambda p: outcome_str(p.outcome).startswith("return Err(")
-            K.check_regions(ctx, "R-REG", "Handle::verify_name", paths, it, [
-                ("all bytes ok, 1≤len≤255", RC(a, good, good) + RC("n", 1, 255), okk, "Ok"),
-                ("empty", RC(a, good, good) + RC("n", 0, 0), errk, "Err"),
-                ("len≥256", RC(a, good, good) + RC("n", 256, None), errk, "Err"),
-                ("some byte not allowed", RC(a, 1 - good, 1 - good), errk, "Err"),
-            ], vb.loc)
-        fs = f.find_bodies(r"^<ca::idexchange::Handle<T> as std::str::FromStr>::from_str$")
+            if not allsym and len(findc) == 1:
+                fc = findc[0] + " is "
+                only_fc = lambda p: all(c[0].startswith(fc) for c in p.conds)
+                found = lambda p: any(c[0].startswith(fc) and (c[0] == fc + "Some") == c[1] for c in p.conds)
+                for row, cons, pred, text, flt in (
+                        ("all bytes ok, 1≤len≤255", RC("n", 1, 255), okk, "Ok", lambda p: not found(p)),
+                        ("empty", RC("n", 0, 0), errk, "Err", lambda p: not found(p)),
+                        ("len≥256", RC("n", 256, None), errk, "Err", lambda p: not found(p)),
+                        ("some byte not allowed", [], errk, "Err", found)):
+                    K.check_regions(ctx, "R-REG", "Handle::verify_name", paths, it,
+                                    [(row, cons, lambda p, pred=pred: pred(p) and only_fc(p), text)], vb.loc,
+                                    allow_opaque=True, path_filter=flt)
+            else:
+                K.check_regions(ctx, "R-REG", "Handle::verify_name", paths, it, [
+                    ("all bytes ok, 1≤len≤255", RC(a, good, good) + RC("n", 1, 255), okk, "Ok"),
+                    ("empty", RC(a, good, good) + RC("n", 0, 0), errk, "Err"),
+                    ("len≥256", RC(a, good, good) + RC("n", 256, None), errk, "Err"),
+                    ("some byte not allowed", RC(a, 1 - good, 1 - good), errk, "Err"),
+                ], vb.loc)
+        fs = [f.body(n) for n in C09._methods(f, HANDLE, "from_str", "std::str::FromStr") if f.body(n) is not None]
         if fs:
             from engine.rules import MustPass
             mp = MustPass(f, lambda c: c.res == vn, name="verify_name")
@@ -267,7 +291,7 @@ def _byte_predicates(f, b):
     pn = re.escape(b.local_name(1) or "_1")
     out = []
     for c in b.calls():
-        if c.name not in ("all", "any") or c.trait != "std::iter::Iterator" or len(c.args) != 2 or b.is_cleanup(c.bb):
+        if c.name not in ("all", "any", "find", "position") or c.trait != "std::iter::Iterator" or len(c.args) != 2 or b.is_cleanup(c.bb):
             continue
         a = K.arg_terms(c)
         recv = strip_deep(a[0])
